@@ -2,7 +2,7 @@
 From Coq Require Import ZArith QArith List Bool Lia.
 From Knut Require Import Model.Str Model.Dec Model.Date Model.Account Model.Ledger Model.Journal
      Model.Table Model.Report Model.JPrinter Model.ImpCommonA Model.ImpCommonB
-     Model.Imp.Revolut2 Model.Imp.Revolut
+     Model.Imp.Revolut2 Model.Imp.Revolut Model.Imp.Wise
      Spec.ImpSpecA Spec.ImpSpecB Proofs.DecProofs Proofs.DecValue Proofs.PairProofs Proofs.StrProofs
      Proofs.ImpProofsA.
 Import ListNotations.
@@ -396,5 +396,130 @@ Proof.
     apply rv_rows_ok. exact Hwf.
   - clear Hwf. induction rows as [|r rows IH]; cbn [map]; constructor; [|exact IH].
     apply books_b_intro; [reflexivity|]. intros c. apply rv_legs_effect; assumption.
+  - rewrite !map_map. apply map_ext. reflexivity.
+Qed.
+
+(* ---------------------------------------------------------------- sums over bookings / changes *)
+
+Lemma legs_effect_app a c l1 l2 : legs_effect a c (l1 ++ l2) == legs_effect a c l1 + legs_effect a c l2.
+Proof.
+  unfold legs_effect. induction l1 as [|l l1 IH]; cbn [app fold_right]; [ring|]. rewrite IH. ring.
+Qed.
+
+Lemma expected_app l1 l2 c : expected (l1 ++ l2) c == expected l1 c + expected l2 c.
+Proof.
+  unfold expected. induction l1 as [|x l1 IH]; cbn [app fold_right]; [ring|]. rewrite IH. ring.
+Qed.
+
+(* fees: each leaves the account for the fee account *)
+Lemma fee_legs_effect acct feeacct c fees : acct <> feeacct ->
+  legs_effect acct c (map (fun f => mkLeg acct feeacct (fst f) (snd f)) fees) ==
+  expected (map (fun f : commodity * dec => (fst f, neg (snd f))) fees) c.
+Proof.
+  intros H. induction fees as [|[fc fq] fees IH]; [reflexivity|].
+  cbn [map legs_effect expected fold_right fst snd]. fold (legs_effect acct c (map (fun f => mkLeg acct feeacct (fst f) (snd f)) fees)).
+  fold (expected (map (fun f : commodity * dec => (fst f, neg (snd f))) fees) c). rewrite IH.
+  unfold leg_effect. cbn [l_credit l_debit l_com l_qty]. rewrite (ind_other_acc feeacct acct) by congruence.
+  unfold ind. acc_cases. destruct (str_eq_dec fc c); [rewrite dvalue_neg|]; ring.
+Qed.
+
+(* ---------------------------------------------------------------- wise *)
+
+Lemma ws_header_self : ws_header_ok ws_header ws_header = MOk tt.
+Proof. vm_compute. reflexivity. Qed.
+
+Lemma ws_fee_spec acct feeacct a c : ws_fee_ok a c = true ->
+  ws_fee acct feeacct a c = MOk (map (fun f => mkLeg acct feeacct (fst f) (snd f)) (ws_fee_of a c)).
+Proof.
+  unfold ws_fee_ok, ws_fee, ws_fee_of. destruct (is_empty c); [reflexivity|]. cbn [orb].
+  intros H. apply andb_prop in H. destruct H as [Hq Hz]. apply is_some_inv in Hq. destruct Hq as [q Hq].
+  rewrite Hq in *. cbn [dec_or0] in *. destruct (is_zero q); [reflexivity|]. cbn [orb] in Hz. rewrite Hz. reflexivity.
+Qed.
+
+Definition entry_txn (e : entry) : txn :=
+  mkTxn (re_date (en_fact e)) (build_desc (en_text e)) (legs_postings (en_legs e)) None.
+
+Lemma andb7b a b c d e f g : a && b && c && d && e && f && g = true ->
+  a = true /\ b = true /\ c = true /\ d = true /\ e = true /\ f = true /\ g = true.
+Proof. destruct a, b, c, d, e, f, g; cbn; intuition congruence. Qed.
+
+Lemma ws_row rep acct feeacct trading r : ws_wf_row r = true ->
+  ws_booking rep acct feeacct trading r = MOk (map DTxn (map entry_txn (ws_entries rep acct feeacct trading r))).
+Proof.
+  intros Hwf. unfold ws_wf_row in Hwf. apply andb4 in Hwf. destruct Hwf as (Hl & Hlen & Hd & Hrest).
+  unfold len_is in Hl. do 18 (destruct r as [|? r]; [discriminate Hl|]). destruct r; [|discriminate Hl].
+  rename s into id, s0 into status, s1 into direction, s2 into created, s4 into sfa, s5 into sfc, s6 into tfa, s7 into tfc,
+         s9 into samt, s10 into scur, s11 into tname, s12 into tamt, s13 into tcur.
+  unfold field in Hlen, Hd. cbn [nth] in Hlen, Hd. apply is_some_inv in Hd. destruct Hd as [d Hd].
+  unfold ws_entries, ws_cancelled, ws_date, ws_converted, ws_dir_of, ws_fees, ws_scur, ws_tcur, ws_src, ws_tgt,
+         ws_text_payment, ws_text_convert, ws_id_text, ws_scur, ws_tcur, ws_src, ws_tgt, field in *. cbn [nth] in *.
+  unfold ws_booking, prefix10. rewrite Hlen, Hd. change s_cancelled with [67;65;78;67;69;76;76;69;68]%Z.
+  destruct (str_eqb status [67;65;78;67;69;76;76;69;68]%Z); [reflexivity|]. cbn [orb] in Hrest.
+  apply andb7b in Hrest. destruct Hrest as (Hf1 & Hf2 & Hs & Ht & Hsc & Htc & Hdir).
+  rewrite (ws_fee_spec acct feeacct _ _ Hf1), (ws_fee_spec acct feeacct _ _ Hf2). cbn [mbind].
+  apply is_some_inv in Hs. destruct Hs as [src Hs]. apply is_some_inv in Ht. destruct Ht as [tgt Ht].
+  rewrite Hs, Ht, Hsc, Htc. cbn [negb orb dec_or0]. cbn [date_or0].
+  unfold ws_direction. change s_out with [79;85;84]%Z. change s_in with [73;78]%Z. change s_neutral with [78;69;85;84;82;65;76]%Z.
+  destruct (str_eqb scur tcur); cbn [negb];
+    (destruct (str_eqb direction [79;85;84]%Z);
+     [|destruct (str_eqb direction [73;78]%Z);
+       [|destruct (str_eqb direction [78;69;85;84;82;65;76]%Z); [|discriminate Hdir]]]);
+    try destruct rep; cbn [map]; rewrite ?map_app, <- ?app_assoc; reflexivity.
+Qed.
+
+Lemma ws_rows_ok rep acct feeacct trading rows : forallb ws_wf_row rows = true ->
+  ws_rows rep acct feeacct trading (map CRec rows) =
+  MOk (map DTxn (map entry_txn (flat_map (ws_entries rep acct feeacct trading) rows))).
+Proof.
+  induction rows as [|r rows IH]; intros Hwf; [reflexivity|].
+  cbn [forallb] in Hwf. apply andb_prop in Hwf. destruct Hwf as [Hr Hrs].
+  cbn [map ws_rows flat_map]. rewrite (ws_row rep acct feeacct trading r Hr). cbn [mbind]. rewrite (IH Hrs). cbn [mbind].
+  rewrite !map_app. reflexivity.
+Qed.
+
+(* every entry of a row: its bookings change the account by its changes *)
+Lemma ws_entry_effect rep acct feeacct trading r e c :
+  acct <> tbd_account -> acct <> feeacct -> acct <> trading ->
+  In e (ws_entries rep acct feeacct trading r) ->
+  legs_effect acct c (en_legs e) == expected (re_changes (en_fact e)) c.
+Proof.
+  intros H1 H2 H3 Hin. unfold ws_entries in Hin.
+  destruct (ws_cancelled r); [destruct Hin|].
+  assert (Hconv : legs_effect acct c [mkLeg acct trading (ws_scur r) (ws_src r); mkLeg trading acct (ws_tcur r) (ws_tgt r)] ==
+                  expected [(ws_scur r, neg (ws_src r)); (ws_tcur r, ws_tgt r)] c).
+  { cbn [legs_effect expected fold_right fst snd]. unfold leg_effect. cbn [l_credit l_debit l_com l_qty].
+    rewrite !(ind_other_acc trading acct) by congruence. unfold ind. acc_cases.
+    destruct (str_eq_dec (ws_scur r) c); destruct (str_eq_dec (ws_tcur r) c); rewrite ?dvalue_neg; ring. }
+  assert (Hout : forall cur q, legs_effect acct c [mkLeg acct tbd_account cur q] == expected [(cur, neg q)] c).
+  { intros cur q. cbn [legs_effect expected fold_right fst snd]. unfold leg_effect. cbn [l_credit l_debit l_com l_qty].
+    rewrite (ind_other_acc tbd_account acct) by congruence. unfold ind. acc_cases.
+    destruct (str_eq_dec cur c); rewrite ?dvalue_neg; ring. }
+  assert (Hinn : forall cur q, legs_effect acct c [mkLeg tbd_account acct cur q] == expected [(cur, q)] c).
+  { intros cur q. cbn [legs_effect expected fold_right fst snd]. unfold leg_effect. cbn [l_credit l_debit l_com l_qty].
+    rewrite (ind_other_acc tbd_account acct) by congruence. unfold ind. acc_cases.
+    destruct (str_eq_dec cur c); ring. }
+  pose proof (fee_legs_effect acct feeacct c (ws_fees r) H2) as Hfee.
+  destruct (ws_converted r); destruct (ws_dir_of r); cbn [In] in Hin;
+    repeat (destruct Hin as [Hin|Hin]; [subst e; cbn [en_legs en_fact re_changes]|]); try contradiction;
+    try (destruct rep; cbn [en_legs en_fact re_changes]);
+    rewrite ?legs_effect_app, ?expected_app, ?Hfee, ?Hconv, ?Hout, ?Hinn; try reflexivity.
+Qed.
+
+Theorem wise_faithful rep acct feeacct trading rows :
+  acct <> tbd_account -> acct <> feeacct -> acct <> trading -> forallb ws_wf_row rows = true ->
+  let entries := flat_map (ws_entries rep acct feeacct trading) rows in
+  exists ts,
+    import_wise rep acct feeacct trading (CRec ws_header :: map CRec rows) = MOk (map DTxn ts) /\
+    Forall2 (fun e t => books_b acct (en_fact e) (en_legs e) None t) entries ts /\
+    map t_desc ts = map build_desc (map en_text entries).
+Proof.
+  intros H1 H2 H3 Hwf entries. exists (map entry_txn entries). split; [|split].
+  - cbn [import_wise]. rewrite ws_header_self. cbn [mbind]. apply ws_rows_ok. exact Hwf.
+  - assert (Hall : forall e, In e entries -> exists r, In e (ws_entries rep acct feeacct trading r)).
+    { intros e He. unfold entries in He. apply in_flat_map in He. destruct He as (r & _ & He). eauto. }
+    clearbody entries. induction entries as [|e l IH]; cbn [map]; constructor.
+    + destruct (Hall e (or_introl eq_refl)) as [r Hr].
+      apply books_b_intro; [reflexivity|]. intros c. exact (ws_entry_effect rep acct feeacct trading r e c H1 H2 H3 Hr).
+    + apply IH. intros e' He'. apply Hall. right. exact He'.
   - rewrite !map_map. apply map_ext. reflexivity.
 Qed.
